@@ -30,7 +30,7 @@ Section LocalProofs.
   Definition l_pc_ok (sh : lshared) (t : nat) (pc : lpc) : Prop :=
     (l_locked pc = true -> l_lock sh = Some t) /\
     match pc with
-    | LpStarted | LpAcquire | LpDone => True
+    | LpStarted | LpRegGet | LpNewLock | LpRegSet | LpAcquire | LpDone => True
     | LpRecheck => (l_uid sh = 0 /\ l_creates sh = 0%nat) \/ (l_uid sh = id0 /\ l_creates sh = 1%nat)
     | LpAssertInit | LpCreate => l_uid sh = 0 /\ l_creates sh = 0%nat
     | LpStore id => id = id0 /\ l_uid sh = 0 /\ l_creates sh = 1%nat
@@ -81,7 +81,7 @@ Section LocalProofs.
         rewrite E; simpl. repeat split; auto. intros k. rewrite count_ops_cons. reflexivity.
   Qed.
 
-  Lemma l_inv_init progs : progs_ok progs -> l_inv progs (l_init progs).
+  Lemma l_inv_init reg0 progs : progs_ok progs -> l_inv progs (l_init reg0 progs).
   Proof.
     intros Hp. unfold l_init. constructor; simpl.
     - left; split; reflexivity.
@@ -107,7 +107,7 @@ Section LocalProofs.
     end.
   Proof.
     pose proof (new_id_nonempty 0%nat) as Hid. fold id0 in Hid.
-    destruct sh as [uid lock creates log]; destruct th as [pc cur rest].
+    destruct sh as [uid lock creates log reg]; destruct th as [pc cur rest].
     unfold l_shared_ok, l_log_ok, l_pc_ok; simpl.
     intros Hsh (Hl1 & Hl2 & Hl3) (Hlk & Hpc) Hrest.
     destruct pc; simpl in *; auto.
@@ -115,6 +115,9 @@ Section LocalProofs.
       destruct (Z.eqb_spec uid 0); simpl.
       + repeat split; auto; discriminate.
       + repeat split; auto; try discriminate; intuition congruence.
+    - (* RegGet *)
+      destruct reg; simpl; repeat split; auto; try discriminate.
+    (* NewLock, RegSet: closed by [auto] *)
     - (* Acquire *)
       destruct lock; [exact I|]. simpl.
       repeat split; auto.
@@ -161,7 +164,7 @@ Section LocalProofs.
     end.
   Proof.
     pose proof (new_id_nonempty 0%nat) as Hid. fold id0 in Hid.
-    destruct sh as [uid lock creates log]; destruct th as [pc cur rest].
+    destruct sh as [uid lock creates log reg]; destruct th as [pc cur rest].
     unfold l_pc_ok; simpl.
     intros (Hlk & Hpc) Hne (Hlk' & Hpc').
     assert (Hex : l_locked pc = true -> l_locked pc' = true -> False).
@@ -183,7 +186,7 @@ Section LocalProofs.
     | None => True
     end.
   Proof.
-    destruct sh as [uid lock creates log]; destruct th as [pc cur rest]; simpl.
+    destruct sh as [uid lock creates log reg]; destruct th as [pc cur rest]; simpl.
     destruct pc; simpl; auto;
       try (destruct lock; [exact I|]); simpl; auto;
       try (left; split; [reflexivity|]; try discriminate; destruct (uid =? 0); auto).
@@ -198,12 +201,13 @@ Section LocalProofs.
     | None => True
     end.
   Proof.
-    destruct sh as [uid lock creates log]; destruct th as [pc cur rest]; simpl.
+    destruct sh as [uid lock creates log reg]; destruct th as [pc cur rest]; simpl.
     intros Hrest.
     destruct pc; simpl in *; auto;
       try (destruct lock; [exact I|]); simpl; auto;
       unfold l_pending; simpl; auto.
     - destruct (uid =? 0); simpl; auto.
+    - destruct reg; simpl; auto.
     - destruct (uid =? 0); simpl; auto.
     - destruct (uid =? 0); simpl; auto.
     - destruct e; simpl; eauto.
@@ -246,17 +250,17 @@ Section LocalProofs.
       + destruct Hpc' as (_ & Hf). rewrite He in Hf. contradiction.
   Qed.
 
-  Lemma l_reach_inv progs s :
-    progs_ok progs -> l_reach new_id true progs s -> l_inv progs s.
+  Lemma l_reach_inv reg0 progs s :
+    progs_ok progs -> l_reach new_id true reg0 progs s -> l_inv progs s.
   Proof.
     intros Hp H; induction H.
     - apply l_inv_init; auto.
     - eapply l_step_inv; eauto.
   Qed.
 
-  Lemma l_run_reach progs s sched lbs s' :
-    l_reach new_id true progs s -> l_run new_id true s sched = Some (lbs, s') ->
-    l_reach new_id true progs s'.
+  Lemma l_run_reach reg0 progs s sched lbs s' :
+    l_reach new_id true reg0 progs s -> l_run new_id true s sched = Some (lbs, s') ->
+    l_reach new_id true reg0 progs s'.
   Proof.
     revert s lbs; induction sched as [|t r IH]; simpl; intros s lbs Hr H.
     - inversion H; subst; auto.
@@ -330,7 +334,7 @@ Section LocalProofs.
                   (l_pc thx = LpAcquire -> l_lock sh = None) ->
                   exists lb s', l_step new_id true (sh, ths) x = Some (lb, s')).
     { intros x thx Hx Hfx Hacq. unfold l_step; simpl. rewrite Hx.
-      destruct sh as [uid lock creates log]; destruct thx as [pc cur rest]; simpl in *.
+      destruct sh as [uid lock creates log reg]; destruct thx as [pc cur rest]; simpl in *.
       unfold l_finished in Hfx; simpl in Hfx.
       destruct pc; simpl; try discriminate; eauto.
       rewrite (Hacq eq_refl). eauto. }
@@ -767,12 +771,12 @@ End ClusterProofs.
     read [started = False], the first initiates and releases, the second takes
     the lock and runs into [assert self.uploadId == ""]. *)
 Definition race_progs : list (list op) := [[OWrite 1]; [OWrite 2]].
-Definition race_sched : list nat := [0; 1; 0; 0; 0; 0; 0; 1; 1; 1]%nat.
+Definition race_sched : list nat := [0; 1; 0; 0; 0; 0; 0; 0; 1; 1; 1; 1]%nat.
 
 Lemma l_old_code_loser_fails :
   exists progs sched lbs s,
     progs_ok progs /\
-    l_run std_id false (l_init progs) sched = Some (lbs, s) /\
+    l_run std_id false (l_init true progs) sched = Some (lbs, s) /\
     exists t th, nth_error (snd s) t = Some th /\ l_pc th = LpErr (EAssert 111).
 Proof.
   exists race_progs, race_sched.
@@ -782,13 +786,27 @@ Proof.
 Qed.
 
 (** the same two threads on the current code, same kind of interleaving *)
-Definition race_sched_fixed : list nat := [0; 1; 0; 0; 0; 0; 0; 0; 1; 1; 1; 0; 0; 0; 1; 1; 1]%nat.
+Definition race_sched_fixed : list nat :=
+  [0; 1; 0; 0; 0; 0; 0; 0; 0; 1; 1; 1; 1; 0; 0; 0; 1; 1; 1]%nat.
 
 Lemma l_race_example :
-  exists lbs s, l_run std_id true (l_init race_progs) race_sched_fixed = Some (lbs, s) /\
+  exists lbs s, l_run std_id true (l_init true race_progs) race_sched_fixed = Some (lbs, s) /\
     l_all_done s /\ rev (l_log (fst s)) = [KCreate 1; KUpload 1 1; KUpload 2 1].
 Proof.
   eexists. eexists. split; [vm_compute; reflexivity|]. split; [|vm_compute; reflexivity].
+  intros th H. vm_compute in H. intuition (subst; reflexivity).
+Qed.
+
+(** first use of the process-local lock in this process ([_state] empty): both threads find the
+    registry empty and create a lock each; the atomic [setdefault] makes them agree on one *)
+Definition race_sched_fresh : list nat :=
+  [0; 1; 0; 1; 0; 1; 0; 1; 0; 0; 0; 0; 0; 0; 1; 1; 1; 0; 0; 0; 1; 1; 1]%nat.
+
+Lemma l_fresh_registry_example :
+  exists lbs s, l_run std_id true (l_init false race_progs) race_sched_fresh = Some (lbs, s) /\
+    l_all_done s /\ l_reg (fst s) = true /\ rev (l_log (fst s)) = [KCreate 1; KUpload 1 1; KUpload 2 1].
+Proof.
+  eexists. eexists. split; [vm_compute; reflexivity|]. split; [|split; vm_compute; reflexivity].
   intros th H. vm_compute in H. intuition (subst; reflexivity).
 Qed.
 
@@ -823,43 +841,43 @@ Qed.
 
 Lemma local_at_most_one_create (new_id : nat -> Z) :
   (forall k, new_id k <> 0) ->
-  forall progs s, progs_ok progs -> l_reach new_id true progs s -> (l_creates (fst s) <= 1)%nat.
-Proof. intros Hn progs s Hp Hr. eapply l_creates_le_1, l_reach_inv; eauto. Qed.
+  forall reg0 progs s, progs_ok progs -> l_reach new_id true reg0 progs s -> (l_creates (fst s) <= 1)%nat.
+Proof. intros Hn reg0 progs s Hp Hr. eapply l_creates_le_1, l_reach_inv; eauto. Qed.
 
 Lemma local_no_thread_fails (new_id : nat -> Z) :
   (forall k, new_id k <> 0) ->
-  forall progs s, progs_ok progs -> l_reach new_id true progs s ->
+  forall reg0 progs s, progs_ok progs -> l_reach new_id true reg0 progs s ->
   forall t th, nth_error (snd s) t = Some th -> l_failed th = false.
-Proof. intros Hn progs s Hp Hr t th. eapply l_no_error, l_reach_inv; eauto. Qed.
+Proof. intros Hn reg0 progs s Hp Hr t th. eapply l_no_error, l_reach_inv; eauto. Qed.
 
 Lemma local_calls_under_one_id (new_id : nat -> Z) :
   (forall k, new_id k <> 0) ->
-  forall progs s, progs_ok progs -> l_reach new_id true progs s ->
+  forall reg0 progs s, progs_ok progs -> l_reach new_id true reg0 progs s ->
   count_creates (l_log (fst s)) = l_creates (fst s) /\
   forall c, In c (l_log (fst s)) ->
     call_id c = new_id 0%nat /\ In (KCreate (new_id 0%nat)) (l_log (fst s)).
-Proof. intros Hn progs s Hp Hr. eapply l_calls_ok, l_reach_inv; eauto. Qed.
+Proof. intros Hn reg0 progs s Hp Hr. eapply l_calls_ok, l_reach_inv; eauto. Qed.
 
 Lemma local_finished_run (new_id : nat -> Z) :
   (forall k, new_id k <> 0) ->
-  forall progs s, progs_ok progs -> l_reach new_id true progs s -> l_all_done s ->
+  forall reg0 progs s, progs_ok progs -> l_reach new_id true reg0 progs s -> l_all_done s ->
   (forall k, count_calls k (l_log (fst s)) = count_ops k (concat progs)) /\
   (concat progs <> [] -> l_creates (fst s) = 1%nat).
 Proof.
-  intros Hn progs s Hp Hr Hd. pose proof (l_reach_inv _ Hn _ _ Hp Hr) as Hi. split.
+  intros Hn reg0 progs s Hp Hr Hd. pose proof (l_reach_inv _ Hn _ _ _ Hp Hr) as Hi. split.
   - eapply l_all_done_counts; eauto.
   - eapply l_all_done_one_create; eauto.
 Qed.
 
 Lemma local_no_deadlock (new_id : nat -> Z) :
   (forall k, new_id k <> 0) ->
-  forall progs s, progs_ok progs -> l_reach new_id true progs s ->
+  forall reg0 progs s, progs_ok progs -> l_reach new_id true reg0 progs s ->
   forall t th, nth_error (snd s) t = Some th -> l_finished th = false ->
   exists t' lb s', l_step new_id true s t' = Some (lb, s').
-Proof. intros Hn progs s Hp Hr t th. eapply l_progress, l_reach_inv; eauto. Qed.
+Proof. intros Hn reg0 progs s Hp Hr t th. eapply l_progress, l_reach_inv; eauto. Qed.
 
-Lemma local_schedules_reach (new_id : nat -> Z) progs sched lbs s :
-  l_run new_id true (l_init progs) sched = Some (lbs, s) -> l_reach new_id true progs s.
+Lemma local_schedules_reach (new_id : nat -> Z) reg0 progs sched lbs s :
+  l_run new_id true (l_init reg0 progs) sched = Some (lbs, s) -> l_reach new_id true reg0 progs s.
 Proof. apply l_run_reach. constructor. Qed.
 
 Lemma cluster_at_most_one_create (new_id : nat -> Z) :
